@@ -116,7 +116,7 @@ int main(int argc, char **argv) {
     install_handlers();
     auto graphs = read_graphs(in);
     for (size_t k = (size_t) start; k < graphs.size(); k++) {
-        g_current_item = (long) k;
+        g_current_item = (long) k; set_crash_context(graphs[k].raw);
         const InGraph &g = graphs[k];
         for (auto &a : algos) for (auto &t : types) {
             alarm(per_call_timeout);
